@@ -214,6 +214,17 @@ func checkC17(c *Ctx) error {
 			}
 			_ = os.RemoveAll(filepath.Join(dir, "no"))
 		}
+		// ... and where it is taken by the process environment: a standard output that cannot be written
+		{
+			a := append(append([]string{"build"}, pats...), "-o", "full-normal.go")
+			rn := cli.DoStdout(w, "", nil, dir, filepath.Join(dir, "full-normal.go"), "/dev/full", a...)
+			a = append(append([]string{"build"}, pats...), "-o", "full-stub.go", "--stub")
+			rs := cli.DoStdout(w, "", nil, dir, filepath.Join(dir, "full-stub.go"), "/dev/full", a...)
+			c.Add("mode_pairs_with_unwritable_stdout", 1)
+			if (rn.Res.Exit == 0) != (rs.Res.Exit == 0) {
+				c.Violate("unwritable-stdout-decides-differently-in-stub-mode", fmt.Sprintf("unit %s: standard output on /dev/full: exit %d in normal mode, %d with --stub", nu.ID, rn.Res.Exit, rs.Res.Exit), unitFiles(nu))
+			}
+		}
 		steps := []bool{false, true, true, false, true, false, false}
 		for si, stub := range steps {
 			e, f := run("same.go", stub)
